@@ -719,8 +719,36 @@ func (e *engine) Run(src *vs.Source, tier string, idx int64) *simkit.RunResult {
 	return res
 }
 
-// makeRecord draws a geometry and encodes it with a real encoder.
-func makeRecord(m *vs.Stream, format int, typ uint64, tier string) ([]byte, []field, map[string]interface{}) {
+// makeRecord is makeRecordUnsafe guarded against a panicking encoder (the
+// writers are real code under change too; C08 is about the readers, so a
+// writer that panics costs this run its record, nothing more).
+func makeRecord(m *vs.Stream, format int, typ uint64, tier string) (rec []byte, fields []field, desc map[string]interface{}) {
+	defer func() {
+		if r := recover(); r != nil {
+			desc = map[string]interface{}{"encoder_panic": fmt.Sprint(r)}
+			fields = nil
+			switch format {
+			case fWKB:
+				rec = []byte{1, 1, 0, 0, 0, 0, 0, 0, 0, 0, 0, 0xf0, 0x3f, 0, 0, 0, 0, 0, 0, 0, 0x40}
+				fields = scanWKB(rec)
+			case fWKT:
+				rec = []byte("POINT(1 2)")
+			case fTWKB:
+				rec = []byte{0x01, 0x00, 0x02, 0x04}
+				fields = scanTWKB(rec)
+			case fFeature:
+				rec = []byte(`{"type":"Feature","geometry":{"type":"Point","coordinates":[1,2]},"properties":null}`)
+			case fFeatureCollection:
+				rec = []byte(`{"type":"FeatureCollection","features":[]}`)
+			default:
+				rec = []byte(`{"type":"Point","coordinates":[1,2]}`)
+			}
+		}
+	}()
+	return makeRecordUnsafe(m, format, typ, tier)
+}
+
+func makeRecordUnsafe(m *vs.Stream, format int, typ uint64, tier string) ([]byte, []field, map[string]interface{}) {
 	desc := map[string]interface{}{}
 	var lat gen.Lattice
 	wild := m.Intn(4, "wild") == 3
@@ -799,9 +827,23 @@ func makeRecord(m *vs.Stream, format int, typ uint64, tier string) ([]byte, []fi
 			opts = append(opts, geom.TWKBIDList(ids))
 		}
 		var err error
-		rec, err = geom.MarshalTWKB(geo, prec, opts...)
+		func() {
+			// the writer is real code too: if it panics on this geometry with
+			// these options, fall back to the plain encoding (the re-encoding
+			// oracle meets the same panic on what the decoders return)
+			defer func() {
+				if r := recover(); r != nil {
+					err = fmt.Errorf("encoder panicked: %v", r)
+					desc["encoder_panic"] = fmt.Sprint(r)
+				}
+			}()
+			rec, err = geom.MarshalTWKB(geo, prec, opts...)
+		}()
 		if err != nil {
-			rec, _ = geom.MarshalTWKB(geo, prec)
+			func() {
+				defer func() { recover() }()
+				rec, _ = geom.MarshalTWKB(geo, prec)
+			}()
 		}
 		fields = scanTWKB(rec)
 		desc["twkb_precision"] = prec
